@@ -980,10 +980,12 @@ class _TypedProgGen(ProgGen):
         return w
 
 
-def gen_program(rng, kind=None, max_depth=3, budget=40, force=()):
+def gen_program(rng, kind=None, max_depth=3, budget=40, force=(), share_partial=None):
     """A program AST (dict) with its feature vector; kind in module|dfg|func|cfg|cond|loop.
     force: quota features to build in by construction ("rowpoly-call": module programs only)."""
     kind = kind or rng.choice(["module"] * 6 + ["dfg", "func", "cfg", "cond", "loop"])
+    if share_partial is None:
+        share_partial = rng.random() < 0.2
     for attempt in range(30):
         g = _TypedProgGen(rng, max_depth=max_depth, budget=budget)
         g.force = set(force)
@@ -992,6 +994,10 @@ def gen_program(rng, kind=None, max_depth=3, budget=40, force=()):
             p["kind"] = kind
             p["n_wires"] = g.nw
             p["n_stmts"] = g.nn
+            if share_partial:
+                # every Noop() / MakeTuple() / UnpackTuple() / CallIndirect() of the program is ONE op object
+                p["share_partial"] = True
+                p["features"]["shared-partial-op"] = 1
             return p
     g = _TypedProgGen(rng, max_depth=max_depth, budget=budget)
     p = g.module()
